@@ -87,7 +87,7 @@ fn op_strategy() -> impl Strategy<Value = Op> {
 }
 
 fn case_strategy() -> BoxedStrategy<Case> {
-    (0u8..4, proptest::collection::vec(op_strategy(), 1..60))
+    (0u8..4, proptest::collection::vec(op_strategy(), 1..vh_core::depth(60, 220)))
         .prop_map(|(node, ops)| Case { node, ops })
         .boxed()
 }
